@@ -21,17 +21,34 @@
                                    dfsDetectCycles                -> [dfs]
 
    The model describes the code WITH the repairs fix-F-C05a (the cycle search
-   starts from the connections of every processor of the direction) and
+   starts from the connections of every processor of the direction),
    fix-F-C05b (a flow reference back into the chain of flows being incorporated
-   is an error).  Both repairs are switches ([allstarts], [guard]) so that the
-   behaviour of the pinned tree stays available for the refutations in
-   Property.v.
+   is an error) and fix-F-C05l (flowBuilder.foreignRoot is cleared before each
+   direction of each flow is built).  The repairs are switches ([allstarts],
+   [guard], [fresh]) so that the behaviour of the unrepaired tree stays
+   available for the refutations in Property.v.
+
+   fb.foreignRoot.  In the code it is a field of the builder holding a POINTER
+   to a graph node.  Without fix-F-C05l a value nothing consumed (`stream -> k`
+   naming a processor that an incorporated flow brought in) survives into the
+   response direction of the same flow and into the build of whichever flow Go's
+   map iteration visits next.  [fresh = false] threads the KEY from the request
+   to the response direction, which is all a key-based graph can say about it
+   (the pointer drags the request-side connections of that node along; the
+   harness family `foreign-root` shows the difference on the real code) and
+   says nothing about the next flow.  With fix-F-C05l ([fresh = true], the
+   model used everywhere else) each direction starts without a foreign root,
+   every flow is built from a clean builder state, and key and pointer agree
+   because both always denote a node of the direction being built
+   (C05_root_is_node).
+
+   flowBuilder.build() tries every flow once and the failed ones a second time;
+   a flow's build being a function of the configuration alone (clean state),
+   the second pass changes nothing: [build_all] is the single pass,
+   [build_two_pass] the code's two, C05_retry_pass_irrelevant their equality.
 
    Not modelled: YAML decoding, URL / path-parameter handling, the filter tree
-   (AddFlow), quota files (tested only), fb.foreignRoot surviving from the build
-   of one flow into the build of the next (it is threaded from the request to
-   the response direction of the same flow, as in the code, and starts empty for
-   every flow), what processors do inside Execute. *)
+   (AddFlow), quota files (tested only), what processors do inside Execute. *)
 From Coq Require Import List ZArith Bool.
 From Verif Require Import C04.Model.
 Import ListNotations.
@@ -428,15 +445,19 @@ Inductive fresult := FOk (f : flow) | FBad | FFuel.
 
 Definition build_fuel (cf : config) : nat := S (S (length (cf_flows cf))).
 
-(* flowBuilder.buildFlow: request connections, response connections, validateFlow *)
-Definition build_flow (cf : config) (guard allstarts : bool) (fc : flowcfg) : fresult :=
+(* flowBuilder.buildFlow: request connections, response connections, validateFlow.
+   [fresh] = fix-F-C05l present: fb.foreignRoot is cleared before each direction;
+   without it the response direction inherits what the request direction left *)
+Definition build_flow_with (fresh : bool) (cf : config) (guard allstarts : bool) (fc : flowcfg)
+  : fresult :=
   let top := fc_name fc in
   let fuel := build_fuel cf in
   match build_conns cf guard top Req fuel top [top] (fc_req fc) (empty_bdir, None) with
   | BErr => FBad
   | BFuel => FFuel
   | BOk (bq, foreign) =>
-      match build_conns cf guard top Res fuel top [top] (fc_res fc) (empty_bdir, foreign) with
+      match build_conns cf guard top Res fuel top [top] (fc_res fc)
+                        (empty_bdir, if fresh then None else foreign) with
       | BErr => FBad
       | BFuel => FFuel
       | BOk (bs, _) =>
@@ -459,6 +480,9 @@ Definition build_flow (cf : config) (guard allstarts : bool) (fc : flowcfg) : fr
       end
   end.
 
+(* the builder of the repaired tree *)
+Definition build_flow : config -> bool -> bool -> flowcfg -> fresult := build_flow_with true.
+
 (* ------------------------------------------------------------ the whole loader *)
 
 Inductive verdict :=
@@ -466,31 +490,58 @@ Inductive verdict :=
 | Reject (stage : Z)      (* 1 flow files, 2 processors, 3 flow graphs *)
 | LoaderFuel.             (* model artefact, excluded by the theorems *)
 
-Fixpoint build_all (cf : config) (guard allstarts : bool) (fcs : list flowcfg) : verdict :=
-  match fcs with
-  | [] => Accept []
-  | fc :: rest =>
-      match build_flow cf guard allstarts fc with
-      | FBad => match build_all cf guard allstarts rest with
-                | LoaderFuel => LoaderFuel
-                | _ => Reject 3
-                end
-      | FFuel => LoaderFuel
-      | FOk f => match build_all cf guard allstarts rest with
-                 | Accept fs => Accept (f :: fs)
-                 | other => other
-                 end
-      end
-  end.
+Section BuildAll.
+  Variable build : flowcfg -> fresult.      (* how one flow is built *)
 
-Definition load_with (guard allstarts : bool) (cf : config) : verdict :=
+  Fixpoint build_all_by (fcs : list flowcfg) : verdict :=
+    match fcs with
+    | [] => Accept []
+    | fc :: rest =>
+        match build fc with
+        | FBad => match build_all_by rest with
+                  | LoaderFuel => LoaderFuel
+                  | _ => Reject 3
+                  end
+        | FFuel => LoaderFuel
+        | FOk f => match build_all_by rest with
+                   | Accept fs => Accept (f :: fs)
+                   | other => other
+                   end
+        end
+    end.
+
+  (* flowBuilder.build() as coded: every flow once; the ones that failed are
+     tried a second time, and only a failure then is an error.  (A flow built
+     in the first pass is in the filter tree already; its graph is the first
+     pass' one.) *)
+  Definition is_fbad (r : fresult) : bool := match r with FBad => true | _ => false end.
+  Definition build_two_pass (fcs : list flowcfg) : verdict :=
+    let pending := filter (fun fc => is_fbad (build fc)) fcs in
+    match build_all_by (filter (fun fc => negb (is_fbad (build fc))) fcs) with
+    | Accept fs =>
+        match build_all_by pending with
+        | Accept fs2 => Accept (fs ++ fs2)
+        | other => other
+        end
+    | other => other
+    end.
+End BuildAll.
+
+Definition build_all (cf : config) (guard allstarts : bool) : list flowcfg -> verdict :=
+  build_all_by (build_flow cf guard allstarts).
+
+Definition load_gen (fresh guard allstarts : bool) (cf : config) : verdict :=
   if negb (struct_ok cf) then Reject 1
   else if negb (procs_ok cf) then Reject 2
-  else build_all cf guard allstarts (cf_flows cf).
+  else build_all_by (build_flow_with fresh cf guard allstarts) (cf_flows cf).
 
-(* the loader with both repairs, and the one of the pinned tree *)
+Definition load_with : bool -> bool -> config -> verdict := load_gen true.
+
+(* the loader with the repairs; the one of the pinned tree (before a, b); the
+   one without fix-F-C05l (request-to-response part of the stale foreign root) *)
 Definition load : config -> verdict := load_with true true.
-Definition load_pinned : config -> verdict := load_with false false.
+Definition load_pinned : config -> verdict := load_gen false false false.
+Definition load_stale : config -> verdict := load_gen false true true.
 
 (* ---------------------------------------------------- executing transactions *)
 
